@@ -76,6 +76,14 @@ class Gamma(object):
             return True, STRS[salt % len(STRS)]
         if d == "str_empty":
             return True, ""
+        if d == "str_odd":
+            return True, ["two words", "~/a b/c", "semi;colon, comma"][salt % 3]
+        if d == "str_dot":
+            return True, ["~/data/x.txt", "v1.2"][salt % 2]
+        if d == "float_exp":
+            return True, [1e-07, 2.5e+20][salt % 2]
+        if d == "int_big":
+            return True, [2 ** 40, 2 ** 35 + 1][salt % 2]
         if d == "code":
             return True, "```operator.add(1, 2)```"
         # outcomes of named deviations
